@@ -421,6 +421,16 @@ def run_queries(sc):
     switches = 0
     last = None
     for who in sc['order']:
+        if who == -1:
+            try:
+                real.consult('c04_down(X) :- c04_down(s(X)).\n', overwrite=True)
+                lim_before = sys.getrecursionlimit()
+                real.yp.evaluate_bounded(real.yp.query('c04_down', [real.yp.atom('z')]), lambda x: x, 400)
+                if sys.getrecursionlimit() != lim_before:
+                    return False, 'evaluate_bounded left the recursion limit at %d (was %d)' % (sys.getrecursionlimit(), lim_before), True
+            except Exception as e:      # noqa
+                return False, 'aborted evaluate_bounded of an unrelated query raised %s: %s' % (type(e).__name__, e), True
+            continue
         q = qs[who]
         if q[3] or len(q[2]) >= CAP:
             continue
@@ -581,6 +591,10 @@ def scenario(seed, i, count):
                   T.conj(T.call(T.fun('p', P)), T.call(T.fun('p', Q)))]
             goals = [rng.choice(qc) for _ in range(k)]
         order = [rng.randrange(k) for _ in range(rng.randint(4, 30))]
+        if rng.random() < 0.35:
+            # -1: while the queries are suspended, another (unrelated, endlessly recursive) query of the SAME engine is run
+            # through evaluate_bounded and cut off by the depth limit (one thread; the limit is restored before the others resume)
+            order.insert(rng.randint(1, len(order)), -1)
         return dict(driver='s_c04', variant='two_queries', seed=seed, index=i, case_id=c['id'], loads=c['loads'],
                     facts=S.jsonable(facts), facts_text=[T.term_to_source(f) for f in facts],
                     goals=S.jsonable(goals), goals_text=[goal_to_source(g) for g in goals], order=order)
